@@ -67,11 +67,14 @@ type Env struct {
 	Multi func(env *Env, c *ast.CallExpr) ([]*Val, bool)
 	// MapOk answers "v, ok := m[k]" for maps whose content the rule chooses (nil = unsupported)
 	MapOk func(env *Env, ix *ast.IndexExpr) (val *Val, ok bool, handled bool)
-	depth int
+	// RangeOnce: a range statement is evaluated for one representative element (its variables stay unbound): for
+	// search loops whose body does not depend on the element under the rule's hooks - "some element satisfies P"
+	RangeOnce bool
+	depth     int
 }
 
 func (env *Env) child(pkg *packages.Package) *Env {
-	return &Env{P: env.P, Pkg: pkg, Vars: map[types.Object]*Val{}, Hook: env.Hook, Multi: env.Multi, MapOk: env.MapOk, depth: env.depth + 1}
+	return &Env{P: env.P, Pkg: pkg, Vars: map[types.Object]*Val{}, Hook: env.Hook, Multi: env.Multi, MapOk: env.MapOk, RangeOnce: env.RangeOnce, depth: env.depth + 1}
 }
 
 type evalErr struct{ msg string }
@@ -641,6 +644,20 @@ func (env *Env) execBlock(list []ast.Stmt) ([]*Val, bool) {
 						env.Vars[info.Defs[nm]] = &Val{C: constant.MakeInt64(0), Fields: map[string]*Val{}}
 					}
 				}
+			}
+		case *ast.RangeStmt:
+			if !env.RangeOnce {
+				env.fail(s, fmt.Sprintf("statement %T", s))
+			}
+			// one representative iteration; a body that assigns to variables living outside the loop is not a
+			// pure search: not evaluated
+			for _, o := range assignedObjs(info, x.Body) {
+				if v, ok := o.(*types.Var); ok && (v.Pos() < x.Pos() || v.Pos() > x.End()) {
+					env.fail(s, "range loop that updates "+v.Name())
+				}
+			}
+			if r, d := env.execBlock(x.Body.List); d {
+				return r, true
 			}
 		default:
 			env.fail(s, fmt.Sprintf("statement %T", s))
